@@ -31,6 +31,7 @@ type parseOutcome struct {
 	Line      int
 	Pos       int
 	TokText   string
+	Cut       bool   // the quoted token text was shortened ("...")
 	Raw       string // the complete panic message
 	Violation *core.Violation
 }
@@ -99,6 +100,11 @@ func parseCheckedWith(input string, parse func(string) any) parseOutcome {
 			return out
 		case string:
 			m := diagRE.FindStringSubmatch(e)
+			if m == nil && strings.HasPrefix(e, "The maximum traversal depth was exceeded") {
+				out.Kind = "violation"
+				out.Violation = core.Violate("C12/not-a-syntax-diagnostic/collator-depth-limit", "ParseSource(%q) panicked with the collator's depth-limit message, which names no token, line or column: %s", show, lib.Short(e))
+				return out
+			}
 			if m == nil {
 				out.Kind = "violation"
 				out.Violation = core.Violate("C12/not-a-syntax-diagnostic", "ParseSource(%q) panicked with a message that is not a located syntax diagnostic: %s", show, lib.Short(e))
@@ -119,6 +125,7 @@ func parseCheckedWith(input string, parse func(string) any) parseOutcome {
 				text = real
 			}
 			out.TokText = text
+			out.Cut = m[5] != ""
 			// the quoted text must begin at (line, position) of the input, counting runes
 			if v := checkLocation(input, out); v != nil {
 				out.Kind = "violation"
@@ -252,8 +259,59 @@ func genMutant(s core.Source) mutCase {
 	return c
 }
 
+// offsetOf returns the rune offset of (line, position) in the input.
+func offsetOf(runes []rune, line, pos int) int {
+	l, off := 1, 0
+	for off < len(runes) && l < line {
+		if runes[off] == '\n' {
+			l++
+		}
+		off++
+	}
+	return off + pos - 1
+}
+
+// namedTokenIsTheUnexpectedOne: a parser that reads from left to right refuses a token because of what came
+// before it, never because of what follows.  So the input cut off right behind the token the diagnostic names
+// must be refused for the same token at the same place.  A diagnostic that names another token than the one the
+// parser could not accept (the last token it did accept, say) fails this: cut off behind that token the text is
+// refused for its end, or not at all.
+func namedTokenIsTheUnexpectedOne(input string, o parseOutcome) *core.Violation {
+	if o.Cut || o.TokType == "EOF" || o.TokText == "" {
+		return nil
+	}
+	runes := []rune(input)
+	end := offsetOf(runes, o.Line, o.Pos) + len([]rune(o.TokText))
+	if end >= len(runes) {
+		return nil
+	}
+	prefix := string(runes[:end])
+	p := parseChecked(prefix)
+	if p.Kind == "violation" {
+		return p.Violation
+	}
+	if p.Kind != "diagnostic" || p.Line != o.Line || p.Pos != o.Pos || p.TokText != o.TokText || p.TokType != o.TokType {
+		got := "accepted"
+		if p.Kind == "diagnostic" {
+			got = fmt.Sprintf("refused for %s %q at line %d position %d", p.TokType, p.TokText, p.Line, p.Pos)
+		}
+		show := input
+		if len(show) > 300 {
+			show = show[:300] + "..."
+		}
+		return core.Violate("C12/diagnostic-names-another-token", "ParseSource(%q) names %s %q at line %d position %d as the unexpected token; but the input cut off right behind that token is %s, so that token is not what the parser could not accept", show, o.TokType, o.TokText, o.Line, o.Pos, got)
+	}
+	return nil
+}
+
 func execInput(input string) (res core.Result) {
 	o := parseChecked(input)
+	if o.Kind == "diagnostic" {
+		if v := namedTokenIsTheUnexpectedOne(input, o); v != nil {
+			res.Violation = v
+			return
+		}
+	}
 	switch o.Kind {
 	case "violation":
 		res.Violation = o.Violation
@@ -580,6 +638,17 @@ func execDeepNest(c deepNestCase, _ core.Source) (res core.Result) {
 		input = strings.Repeat("[", c.Depth)
 	case "assoc":
 		input = strings.Repeat("[1: ", c.Depth) + "2" + strings.Repeat("](Catalog)", c.Depth) + "\n"
+	case "items-in-Set", "items-in-Stack", "items-in-Queue", "items-in-Array", "items-in-List":
+		// two deeply nested items side by side in each of the value contexts (a Set has to rank them)
+		deep := func(leaf string) string {
+			return strings.Repeat("[", c.Depth-1) + leaf + strings.Repeat("](List)", c.Depth-1)
+		}
+		input = "[" + deep("1") + ", " + deep("2") + "](" + strings.TrimPrefix(c.Shape, "items-in-") + ")\n"
+	case "values-in-Map":
+		deep := func(leaf string) string {
+			return strings.Repeat("[", c.Depth-1) + leaf + strings.Repeat("](List)", c.Depth-1)
+		}
+		input = "[\"a\": " + deep("1") + ", \"b\": " + deep("2") + "](Map)\n"
 	default: // wrong closer in the middle
 		input = strings.Repeat("[", c.Depth) + "1" + strings.Repeat("](List)", c.Depth/2) + ")" + strings.Repeat("](List)", c.Depth/2)
 	}
@@ -590,7 +659,7 @@ func execDeepNest(c deepNestCase, _ core.Source) (res core.Result) {
 		res.Violation = v
 		return
 	}
-	if c.Shape == "valid" && o.Kind != "value" || c.Shape == "assoc" && o.Kind != "value" {
+	if c.Shape != "unclosed" && c.Shape != "wrong-closer" && o.Kind != "value" {
 		res.Violation = core.Violate("C12/deep/rejected-valid", "a valid document nested %d deep was rejected: type %s line %d position %d", c.Depth, o.TokType, o.Line, o.Pos)
 		return
 	}
@@ -622,8 +691,9 @@ func TestC12(t *testing.T) {
 	core.Rapid(r, core.Check[soupCase]{Name: "token-soup", Gen: genSoup, Exec: func(c soupCase, _ core.Source) core.Result { return execInput(c.Input) }, HangLimit: 120 * time.Second}, r.N(3000, 30000))
 	core.Rapid(r, core.Check[locCase]{Name: "located-errors", Gen: genLocated, Exec: execLocated, HangLimit: 120 * time.Second}, r.N(600, 6000))
 	core.DFS(r, core.Check[tailCase]{Name: "tails-after-error", Gen: genTail, Exec: execTail}, 0)
+	core.Rapid(r, core.Check[blameCase]{Name: "blamed-token", Gen: genBlame, Exec: execBlame, HangLimit: 120 * time.Second}, r.N(3000, 30000))
 	core.Rapid(r, core.Check[reuseCase]{Name: "one-parser-many-documents", Gen: genReuse, Exec: execReuse, HangLimit: 120 * time.Second}, r.N(1500, 15000))
-	depths := []int{1, 2, 9, 17, 50, 100, 300}
+	depths := []int{1, 2, 8, 9, 16, 17, 18, 50, 100, 300}
 	if r.Thorough() {
 		depths = append(depths, 1000, 2000)
 	} else {
@@ -631,6 +701,6 @@ func TestC12(t *testing.T) {
 	}
 	core.DFS(r, core.Check[deepNestCase]{Name: "deep-nesting", HangLimit: 600 * time.Second,
 		Gen: func(s core.Source) deepNestCase {
-			return deepNestCase{Depth: depths[s.Choose(len(depths), "depth")], Shape: core.Pick(s, []string{"valid", "unclosed", "assoc", "wrong-closer"}, "shape")}
+			return deepNestCase{Depth: depths[s.Choose(len(depths), "depth")], Shape: core.Pick(s, []string{"valid", "unclosed", "assoc", "wrong-closer", "items-in-Set", "items-in-Stack", "items-in-Queue", "items-in-Array", "items-in-List", "values-in-Map"}, "shape")}
 		}, Exec: execDeepNest}, 0)
 }
